@@ -391,11 +391,11 @@ func spawn(args []string, env []string, v any) error {
 
 func Run(r *report.Run) {
 	thorough := r.Tier == "thorough"
-	r.Rule = "(1) map order as an environment answer: the check binary is linked against a Go runtime whose map-iteration start (per call site) and per-map hash seed are chosen by the harness; for each of 16 operations (plans of the 3 planners over the differ universe incl. reverse statements and comments, order of diff results, MarshalHCL, EvalHCL+marshal, 6 formatters, MemDir/LocalDir checksums, Validate error classification, scope error text) the baseline (start 0) is compared byte for byte with: every site shifted at once (14 start values), one site at a time (deviation bound 1; thorough: pairs of atlas sites, bound 2), worker processes with hash seed 0,1(,2), and an uncontrolled (really random) process; (2) declaration order: all permutations of the top-level blocks and of the index blocks, reversed foreign-key/check blocks of an HCL source -> same multiset of statements and equal SQLite catalogue; (3) every sequence of <=2 (thorough 3) operations from an 8-operation alphabet in one process: the last operation's output equals its output as first operation of a fresh process; non-trivial = run under a non-default answer; distinct = (operation, deviation)"
+	r.Rule = "(1) map order as an environment answer: the check binary is linked against a Go runtime whose map-iteration start (per call site) and per-map hash seed are chosen by the harness; for each of 16 operations (plans of the 3 planners over the differ universe incl. reverse statements and comments, order of diff results, MarshalHCL, EvalHCL+marshal, 6 formatters, MemDir/LocalDir checksums, Validate error classification, scope error text) the baseline (start 0) is compared byte for byte with: every site shifted at once (14 start values), one site at a time (deviation bound 1; thorough: pairs of atlas sites, bound 2), worker processes with hash seed 0,1(,2), and an uncontrolled (really random) process; (2) declaration order: all permutations of the top-level blocks and of the index blocks, reversed foreign-key/check blocks of an HCL source -> same multiset of statements and equal SQLite catalogue; (3) every sequence of <=2 (thorough 3) operations from an 8-operation alphabet in one process: the last operation's output equals its output as first operation of a fresh process; (4) every unordered pair of the operations (and each with itself) run at the same time, twice, in a binary built with -race: outputs equal the solo outputs and the race detector reports nothing; non-trivial = run under a non-default answer; distinct = (operation, deviation)"
 	r.Assumptions = []string{
 		"in the declaration-order part a statement is compared as the multiset of its clause lines (constraint clauses of one CREATE TABLE are independent and follow declaration order)",
 		"wall-clock stamps written by third-party formatters are masked (14 digits); Plan.Version is always supplied",
-		"true preemption races are not decided by this exploration (no synchronisation below operation granularity except the memDirs mutex); see DESIGN.md",
+		"the operations have no synchronisation below operation granularity (except the memDirs mutex), so there is nothing for a controlled scheduler to interleave; unsynchronised sharing is decided by the separate free-running -race pass (4), whose interleavings are the ones that happened, not an enumeration",
 		"maps created before the runtime read the environment (runtime start-up) are not controlled",
 	}
 	ops := Ops(thorough)
@@ -496,6 +496,19 @@ func Run(r *report.Run) {
 	for i := 0; i < or.Cases; i++ {
 		r.CaseDistinct(true)
 	}
+	// (4) pairs of operations at the same time, under the race detector
+	rp, rr, rv, rerr := racePass(r.Tier, solo, len(ops))
+	if rerr != nil {
+		r.Violate("", "harness: "+rerr.Error(), nil)
+	}
+	for _, v := range rv {
+		r.Violate("", v.Msg, v.Case)
+	}
+	for i := 0; i < rr; i++ {
+		r.CaseDistinct(true)
+	}
+	r.Set("concurrent_operation_pairs_under_race_detector", rp)
+	r.Set("concurrent_operation_runs", rr)
 	var as []string
 	for s := range atlasSites {
 		as = append(as, s)
@@ -521,7 +534,7 @@ func Replay(r *report.Run, raw json.RawMessage) {
 	}
 	json.Unmarshal(raw, &v)
 	if v.Case.Op == "" {
-		fmt.Println("  replay of sequence / declaration-order cases: re-run ./check C20")
+		fmt.Println("  replay of sequence / declaration-order / concurrent-pair cases: re-run ./check C20")
 		return
 	}
 	var wr WorkerResult
